@@ -805,6 +805,14 @@ namespace awkward {
           + stream.Peek() + std::string("\'")
           + FILENAME(__LINE__));
       }
+      else if (!fully_parsed  &&
+               reader.GetParseErrorCode() != rj::kParseErrorDocumentEmpty) {
+        // the stream ended inside a token that had not reached the handler yet
+        // (an unterminated string, a cut-off literal or number)
+        throw std::invalid_argument(
+            std::string("incomplete JSON object at the end of the stream")
+            + FILENAME(__LINE__));
+      }
     }
 
     ContentPtr obj = handler.snapshot();
